@@ -54,3 +54,20 @@ impl Bytes {
 
 // uN::to_le_bytes / from_be_bytes have const-generic array signatures that assume_specification cannot name (R5)
 #[verifier::external_body] pub fn u64_to_le_bytes(x: u64) -> (r: [u8; 8]) ensures r@ == le64(x) { x.to_le_bytes() }
+
+// value of big-/little-endian byte strings (first bytes of s)
+pub open spec fn be_u16_val(s: Seq<u8>) -> u16 { ((s[0] as u16) << 8) | (s[1] as u16) }
+pub open spec fn be_u32_val(s: Seq<u8>) -> u32 { ((s[0] as u32) << 24) | ((s[1] as u32) << 16) | ((s[2] as u32) << 8) | (s[3] as u32) }
+pub open spec fn be_u64_val(s: Seq<u8>) -> u64 {
+    ((s[0] as u64) << 56) | ((s[1] as u64) << 48) | ((s[2] as u64) << 40) | ((s[3] as u64) << 32)
+    | ((s[4] as u64) << 24) | ((s[5] as u64) << 16) | ((s[6] as u64) << 8) | (s[7] as u64)
+}
+pub open spec fn le_u64_val(s: Seq<u8>) -> u64 {
+    ((s[7] as u64) << 56) | ((s[6] as u64) << 48) | ((s[5] as u64) << 40) | ((s[4] as u64) << 32)
+    | ((s[3] as u64) << 24) | ((s[2] as u64) << 16) | ((s[1] as u64) << 8) | (s[0] as u64)
+}
+// uN::from_be_bytes / from_le_bytes (rule R5)
+#[verifier::external_body] pub fn u16_from_be_bytes(x: [u8; 2]) -> (r: u16) ensures r == be_u16_val(x@) { u16::from_be_bytes(x) }
+#[verifier::external_body] pub fn u32_from_be_bytes(x: [u8; 4]) -> (r: u32) ensures r == be_u32_val(x@) { u32::from_be_bytes(x) }
+#[verifier::external_body] pub fn u64_from_be_bytes(x: [u8; 8]) -> (r: u64) ensures r == be_u64_val(x@) { u64::from_be_bytes(x) }
+#[verifier::external_body] pub fn u64_from_le_bytes(x: [u8; 8]) -> (r: u64) ensures r == le_u64_val(x@) { u64::from_le_bytes(x) }
